@@ -11,6 +11,7 @@ import numpy
 
 from mpv import arr, ref
 
+ANCHORS = ['mpilot/libraries/eems/fuzzy.py:FuzzyOr.execute', 'mpilot/libraries/eems/fuzzy.py:FuzzyAnd.execute', 'mpilot/libraries/eems/fuzzy.py:FuzzyNot.execute', 'mpilot/libraries/eems/fuzzy.py:FuzzyUnion.execute', 'mpilot/libraries/eems/fuzzy.py:FuzzyWeightedUnion.execute', 'mpilot/libraries/eems/fuzzy.py:FuzzySelectedUnion.execute', 'mpilot/libraries/eems/fuzzy.py:FuzzyXOr.execute']   # repository functions the workload must enter (reported as anchors_reached / anchors_missed)
 LEVEL = "exploration"
 RULE = ("operator x parameter x input-order x layout cases; n<=3 inputs enumerate the complete 18^n value/missing lattice as "
         "array cells, n=4,5 sample cell tuples; a case is distinct by (operator, n, params, layout rank, order class)")
